@@ -41,7 +41,9 @@ type legacyTrie struct {
 	height   uint8
 }
 
-func (l *legacyTrie) Name() string { return fmt.Sprintf("core/trie(poseidon=%v,h=%d)", l.poseidon, l.height) }
+func (l *legacyTrie) Name() string {
+	return fmt.Sprintf("core/trie(poseidon=%v,h=%d)", l.poseidon, l.height)
+}
 func (l *legacyTrie) open() error {
 	l.txn = l.kv.NewIndexedBatch()
 	var err error
@@ -52,9 +54,9 @@ func (l *legacyTrie) open() error {
 	}
 	return err
 }
-func (l *legacyTrie) Put(k, v *felt.Felt) error            { _, err := l.t.Put(k, v); return err }
-func (l *legacyTrie) Get(k *felt.Felt) (felt.Felt, error)  { return l.t.Get(k) }
-func (l *legacyTrie) Root() (felt.Felt, error)             { return l.t.Hash() }
+func (l *legacyTrie) Put(k, v *felt.Felt) error           { _, err := l.t.Put(k, v); return err }
+func (l *legacyTrie) Get(k *felt.Felt) (felt.Felt, error) { return l.t.Get(k) }
+func (l *legacyTrie) Root() (felt.Felt, error)            { return l.t.Hash() }
 func (l *legacyTrie) Commit() error {
 	if err := l.t.Commit(); err != nil {
 		return err
